@@ -157,6 +157,11 @@ def direct_calls(M, rec, rng, reps):
                     E.LinksEngine.Veq(vec_(rho, side), p["v_free"], p["rho_crit"], p["a"])
             elif prim == "controlled_Veq":
                 vsl = sorted(rng.sample(range(N), rng.randint(0, N)))
+                if rng.random() < 0.2:
+                    # evenly spaced signs written as a range (the last k segments, every other one, all of them backwards)
+                    k_ = rng.randint(1, N)
+                    vsl = rng.choice((range(0, k_), range(-k_, 0), range(N - 1, -1, -1), range(0, N, 2), range(-1, -k_ - 1, -1), range(N - k_, N)))
+                    rec.count("direct_calls_with_signs_given_as_a_range")
                 vc = []
                 for i in vsl:
                     V = R.veq(rho[i], p["v_free"], p["rho_crit"], p["a"])
